@@ -1,7 +1,7 @@
 from __future__ import annotations
 import zlib
 from ..rfc7516.models import JWEZipModel
-from ..errors import ExceededSizeError
+from ..errors import DecodeError, ExceededSizeError
 
 GZIP_HEAD = bytes([120, 156])
 MAX_SIZE = 250 * 1024
@@ -24,7 +24,10 @@ class DeflateZipModel(JWEZipModel):
             decompressor = zlib.decompressobj()
         else:
             decompressor = zlib.decompressobj(-zlib.MAX_WBITS)
-        value = decompressor.decompress(s, MAX_SIZE)
+        try:
+            value = decompressor.decompress(s, MAX_SIZE)
+        except zlib.error as error:
+            raise DecodeError(f"Invalid compressed data: {error}")
         if decompressor.unconsumed_tail:
             raise ExceededSizeError(f"Decompressed string exceeds {MAX_SIZE} bytes")
         return value
